@@ -42,6 +42,8 @@ theorem evalSep_eq_val : ∀ (s : Shape) (xs ys : List Rat), WF s →
   intro s
   induction s with
   | circle r cx cy => intro xs ys _; rw [evalSep]; exact circleFast_eq r cx cy xs ys
+  | disk r => intro xs ys _; rw [evalSep]; exact circleFast_eq r 0 0 xs ys
+  | halfplane gt a b c => intro xs ys _; rw [evalSep]; exact halfFast_eq gt a b c xs ys
   | ellipse cM sM cm sm cx cy mn => intro xs ys _; rw [evalSep]; exact ellipseFast_eq cM sM cm sm cx cy mn xs ys
   | rect hx hy cx cy => intro xs ys _; rw [evalSep]; exact rectFast_eq hx hy cx cy xs ys
   | regpoly even r a dirs cx cy =>
@@ -83,7 +85,7 @@ theorem evalSep_eq_val : ∀ (s : Shape) (xs ys : List Rat), WF s →
         a = Shape.regpoly even r a_1 dirs cx cy → False) →
         evalSep (.seg segs a) xs ys = (sepPoints xs ys).map (val (.seg segs a)) := by
       intro hne
-      rw [evalSep.eq_15 _ _ _ _ hne]
+      rw [evalSep.eq_17 _ _ _ _ hne]
       rw [segFold_map_foldl (sepPoints xs ys) segs _ (val a)]
       · simp [val]
       · intro res s
@@ -94,6 +96,8 @@ theorem evalSep_eq_val : ∀ (s : Shape) (xs ys : List Rat), WF s →
       rw [evalSep]
       exact segFast_eq h even a dirs cx cy xs ys segs
     | circle => exact generic (by intros; simp_all)
+    | disk => exact generic (by intros; simp_all)
+    | halfplane => exact generic (by intros; simp_all)
     | ellipse => exact generic (by intros; simp_all)
     | rect => exact generic (by intros; simp_all)
     | irrpoly => exact generic (by intros; simp_all)
@@ -142,48 +146,130 @@ theorem ditherGrids_lengths {nx ny : Nat} {xs ys : List Rat} {gs : List (List Ra
     obtain ⟨ey, _, ex, _, rfl⟩ := hg
     simp [deltas_length hx, deltas_length hy]
 
+theorem deltas_isSome_iff (x : List Rat) : (deltas x).isSome = true ↔ 2 ≤ x.length := by
+  match x with
+  | [] => simp [deltas]
+  | [_] => simp [deltas]
+  | _ :: _ :: _ => simp [deltas]
+
+theorem dithers_length (n : Nat) : (dithers n).length = n := by simp [dithers]
+
+theorem ditherGrids_isSome_iff (nx ny : Nat) (xs ys : List Rat) :
+    (ditherGrids nx ny xs ys).isSome = true ↔ 2 ≤ xs.length ∧ 2 ≤ ys.length := by
+  rw [← deltas_isSome_iff, ← deltas_isSome_iff]
+  unfold ditherGrids
+  cases deltas xs <;> cases deltas ys <;> simp
+
+theorem ditherGrids_length {nx ny : Nat} {xs ys : List Rat} {gs : List (List Rat × List Rat)}
+    (h : ditherGrids nx ny xs ys = some gs) : gs.length = ny * nx := by
+  unfold ditherGrids at h
+  match hx : deltas xs, hy : deltas ys, h with
+  | some dx, some dy, h =>
+    simp only [hx, hy, Option.some.injEq] at h
+    subst h
+    rw [flatMap_length_of_length _ _ nx (by intro ey _; simp [dithers_length]), dithers_length]
+
+/-- what a successful `evaluate_supersampled` is made of -/
+theorem supersampled_ok {s : Shape} {nx ny : Nat} {xs ys f : List Rat}
+    (h : supersampled s nx ny xs ys = .ok f) :
+    ∃ gs, ditherGrids nx ny xs ys = some gs ∧ 1 ≤ nx ∧ 1 ≤ ny ∧
+      f = meanFields (xs.length * ys.length) (gs.map fun g => evalSep s g.1 g.2) := by
+  unfold supersampled at h
+  split at h
+  · cases h
+  · rename_i gs hg
+    split at h
+    · cases h
+    · rename_i hn
+      injection h with h
+      exact ⟨gs, hg, by omega, by omega, h.symm⟩
+
+/-- **when `evaluate_supersampled` is defined**: every axis has at least two points and both
+oversampling factors are at least 1 -/
+theorem supersampled_isOk_iff (s : Shape) (nx ny : Nat) (xs ys : List Rat) :
+    (∃ f, supersampled s nx ny xs ys = .ok f) ↔
+      (2 ≤ xs.length ∧ 2 ≤ ys.length ∧ 1 ≤ nx ∧ 1 ≤ ny) := by
+  constructor
+  · rintro ⟨f, h⟩
+    obtain ⟨gs, hg, h1, h2, _⟩ := supersampled_ok h
+    have := (ditherGrids_isSome_iff nx ny xs ys).mp (by simp [hg])
+    exact ⟨this.1, this.2, h1, h2⟩
+  · rintro ⟨hx, hy, h1, h2⟩
+    have := (ditherGrids_isSome_iff nx ny xs ys).mpr ⟨hx, hy⟩
+    obtain ⟨gs, hg⟩ := Option.isSome_iff_exists.mp this
+    refine ⟨meanFields (xs.length * ys.length) (gs.map fun g => evalSep s g.1 g.2), ?_⟩
+    unfold supersampled
+    rw [hg]
+    simp only
+    rw [if_neg (by omega)]
+
+/-- … and which error it raises otherwise: IndexError (a one-point axis) takes precedence over
+ZeroDivisionError (an oversampling factor 0) -/
+theorem supersampled_error_iff (s : Shape) (nx ny : Nat) (xs ys : List Rat) :
+    (supersampled s nx ny xs ys = .error .index ↔ (xs.length < 2 ∨ ys.length < 2)) ∧
+    (supersampled s nx ny xs ys = .error .zeroDiv ↔
+      (2 ≤ xs.length ∧ 2 ≤ ys.length ∧ (nx = 0 ∨ ny = 0))) := by
+  have hiff := ditherGrids_isSome_iff nx ny xs ys
+  unfold supersampled
+  cases hg : ditherGrids nx ny xs ys with
+  | none =>
+    rw [hg] at hiff
+    simp only [Option.isSome_none, Bool.false_eq_true, false_iff, not_and, not_le] at hiff
+    constructor
+    · simp only [true_iff]
+      by_cases hx : 2 ≤ xs.length
+      · exact Or.inr (hiff hx)
+      · exact Or.inl (by omega)
+    · constructor
+      · intro h; cases h
+      · rintro ⟨hx, hy, _⟩
+        have := hiff hx
+        omega
+  | some gs =>
+    rw [hg] at hiff
+    simp only [Option.isSome_some, true_iff] at hiff
+    constructor
+    · by_cases hn : nx = 0 ∨ ny = 0
+      · simp only [if_pos hn, reduceCtorEq, Except.error.injEq, false_iff]; omega
+      · simp only [if_neg hn, reduceCtorEq, false_iff]; omega
+    · by_cases hn : nx = 0 ∨ ny = 0
+      · simp only [if_pos hn, true_iff]; exact ⟨hiff.1, hiff.2, hn⟩
+      · simp only [if_neg hn, reduceCtorEq, false_iff]; tauto
+
 /-- **supersampled binary apertures stay in [0,1]** (`evaluate_supersampled`, statistic 'mean') -/
 theorem supersampled_mem_unit {s : Shape} (hb : Binary s) (hw : WF s) {nx ny : Nat} {xs ys f : List Rat}
-    (h : supersampled s nx ny xs ys = some f) : ∀ v ∈ f, 0 ≤ v ∧ v ≤ 1 := by
-  unfold supersampled at h
-  match hg : ditherGrids nx ny xs ys, h with
-  | some gs, h =>
-    simp only [hg, Option.map_some, Option.some.injEq] at h
-    subst h
-    by_cases hne : gs = []
-    · subst hne
-      intro v hv
-      simp [meanFields] at hv
-      obtain ⟨_, rfl⟩ := hv
-      simp
-    · apply meanFields_mem_unit
-      · simpa using hne
-      · intro fl hfl
-        simp only [List.mem_map] at hfl
-        obtain ⟨g, hgm, rfl⟩ := hfl
-        have := ditherGrids_lengths hg g hgm
-        rw [evalSep_length s _ _ hw, this.1, this.2]
-      · intro fl hfl v hv
-        simp only [List.mem_map] at hfl
-        obtain ⟨g, hgm, rfl⟩ := hfl
-        rw [evalSep_eq_val s _ _ hw] at hv
-        simp only [List.mem_map] at hv
-        obtain ⟨p, _, rfl⟩ := hv
-        exact values_in_unit_interval hb p
-
-theorem supersampled_length {s : Shape} (hw : WF s) {nx ny : Nat} {xs ys f : List Rat}
-    (h : supersampled s nx ny xs ys = some f) : f.length = xs.length * ys.length := by
-  unfold supersampled at h
-  match hg : ditherGrids nx ny xs ys, h with
-  | some gs, h =>
-    simp only [hg, Option.map_some, Option.some.injEq] at h
-    subst h
-    apply meanFields_length
-    intro fl hfl
+    (h : supersampled s nx ny xs ys = .ok f) : ∀ v ∈ f, 0 ≤ v ∧ v ≤ 1 := by
+  obtain ⟨gs, hg, h1, h2, rfl⟩ := supersampled_ok h
+  have hlen := ditherGrids_length hg
+  apply meanFields_mem_unit
+  · intro he
+    have : gs = [] := by simpa using he
+    rw [this] at hlen
+    have : 0 < ny * nx := Nat.mul_pos h2 h1
+    simp at hlen
+    omega
+  · intro fl hfl
     simp only [List.mem_map] at hfl
     obtain ⟨g, hgm, rfl⟩ := hfl
     have := ditherGrids_lengths hg g hgm
     rw [evalSep_length s _ _ hw, this.1, this.2]
+  · intro fl hfl v hv
+    simp only [List.mem_map] at hfl
+    obtain ⟨g, hgm, rfl⟩ := hfl
+    rw [evalSep_eq_val s _ _ hw] at hv
+    simp only [List.mem_map] at hv
+    obtain ⟨p, _, rfl⟩ := hv
+    exact values_in_unit_interval hb p
+
+theorem supersampled_length {s : Shape} (hw : WF s) {nx ny : Nat} {xs ys f : List Rat}
+    (h : supersampled s nx ny xs ys = .ok f) : f.length = xs.length * ys.length := by
+  obtain ⟨gs, hg, _, _, rfl⟩ := supersampled_ok h
+  apply meanFields_length
+  intro fl hfl
+  simp only [List.mem_map] at hfl
+  obtain ⟨g, hgm, rfl⟩ := hfl
+  have := ditherGrids_lengths hg g hgm
+  rw [evalSep_length s _ _ hw, this.1, this.2]
 
 /-- a later segment overwrites the earlier ones exactly where it covers the point -/
 theorem seg_snoc (segs : List (Pt × Rat)) (s : Pt × Rat) (a : Shape) (p : Pt) :
